@@ -11,6 +11,7 @@ package sharedfile
 //   closed ==> file == nil
 //   file != nil ==> file.#open                 (the cached handle is open)
 //   refs > 0 && !closed ==> file != nil        (pinned readers have a handle)
+//   immediateClose ==> refs > 0 || file == nil (a latched close fires at the last release)
 // Property C24: the handle is closed only when no reader holds it (refs == 0)
 // or by the explicit Close of the owner: every call of s.file.Close() outside
 // SharedFile.Close is a call site obligation `refs == 0`.
@@ -34,6 +35,7 @@ package sharedfile
 //gvc:  monitor s invariant closedfile: s.closed ==> s.file == nil
 //gvc:  monitor s invariant openfile: s.file != nil ==> s.file.#open
 //gvc:  monitor s invariant pinned: s.refs > 0 && !s.closed ==> s.file != nil
+//gvc:  monitor s invariant latch: s.immediateClose ==> s.refs > 0 || s.file == nil
 //gvc:  ensures handed: err == nil ==> f != nil
 //gvc:end
 
@@ -46,6 +48,7 @@ package sharedfile
 //gvc:  monitor s invariant closedfile: s.closed ==> s.file == nil
 //gvc:  monitor s invariant openfile: s.file != nil ==> s.file.#open
 //gvc:  monitor s invariant pinned: s.refs > 0 && !s.closed ==> s.file != nil
+//gvc:  monitor s invariant latch: s.immediateClose ==> s.refs > 0 || s.file == nil
 //gvc:  sink Close requires unpinned: s.refs == 0
 //gvc:end
 
@@ -58,6 +61,7 @@ package sharedfile
 //gvc:  monitor s invariant closedfile: s.closed ==> s.file == nil
 //gvc:  monitor s invariant openfile: s.file != nil ==> s.file.#open
 //gvc:  monitor s invariant pinned: s.refs > 0 && !s.closed ==> s.file != nil
+//gvc:  monitor s invariant latch: s.immediateClose ==> s.refs > 0 || s.file == nil
 //gvc:  sink Close requires unpinned: s.refs == 0
 //gvc:end
 
@@ -70,6 +74,7 @@ package sharedfile
 //gvc:  monitor s invariant closedfile: s.closed ==> s.file == nil
 //gvc:  monitor s invariant openfile: s.file != nil ==> s.file.#open
 //gvc:  monitor s invariant pinned: s.refs > 0 && !s.closed ==> s.file != nil
+//gvc:  monitor s invariant latch: s.immediateClose ==> s.refs > 0 || s.file == nil
 //gvc:end
 
 //gvc:func (*SharedFile).Pinned
@@ -81,4 +86,5 @@ package sharedfile
 //gvc:  monitor s invariant closedfile: s.closed ==> s.file == nil
 //gvc:  monitor s invariant openfile: s.file != nil ==> s.file.#open
 //gvc:  monitor s invariant pinned: s.refs > 0 && !s.closed ==> s.file != nil
+//gvc:  monitor s invariant latch: s.immediateClose ==> s.refs > 0 || s.file == nil
 //gvc:end
